@@ -28,21 +28,22 @@ func (c01) Cases(tier string) int {
 
 func (c01) Thresholds(tier string) map[string]int64 {
 	return map[string]int64{
-		"options-in-if-in-options":             20,
-		"programs-with>=20-nodes":              30,
-		"jump-out-of-nested-body":              50,
-		"if-body-ends-in-option-group":         20,
-		"stop-with-statements-left":            20,
-		"chosen-body-empty":                    50,
-		"multi-reader":                         100,
-		"jump-by-expression":                   50,
-		"if-taken-not-first":                   50,
-		"if-none-taken":                        50,
-		"garbage-arg-after-non-option":         1000,
-		"disabled-option-chosen":               20,
-		"deep-nesting>=8":                      5,
-		"paths":                                3000,
-		"same-jump-statement-different-target": 300,
+		"program-whose-Start-node-is-not-first": 40,
+		"options-in-if-in-options":              20,
+		"programs-with>=20-nodes":               30,
+		"jump-out-of-nested-body":               50,
+		"if-body-ends-in-option-group":          20,
+		"stop-with-statements-left":             20,
+		"chosen-body-empty":                     50,
+		"multi-reader":                          100,
+		"jump-by-expression":                    50,
+		"if-taken-not-first":                    50,
+		"if-none-taken":                         50,
+		"garbage-arg-after-non-option":          1000,
+		"disabled-option-chosen":                20,
+		"deep-nesting>=8":                       5,
+		"paths":                                 3000,
+		"same-jump-statement-different-target":  300,
 	}
 }
 
@@ -127,6 +128,7 @@ func (c01) genProgram(c *core.Ctx) *hast.Program {
 		return routerProgram(r)
 	}
 	cfg := gen.DefaultFlow()
+	cfg.StartNotFirst = true
 	if c.Thorough() && c.Idx%5 == 4 {
 		// deeper bounds in the thorough tier: up to 8 nodes, 90 statements, nesting 7
 		cfg.MaxNodes, cfg.MaxStmts, cfg.MaxDepth, cfg.MaxReaders = 8, 90, 7, 4
@@ -205,6 +207,7 @@ func (p c01) Run(c *core.Ctx) {
 		c.Feature("rendered-in-random-layout")
 	}
 	scripts := hast.Render(prog, lay)
+	shapeFeatures(c, prog)
 	c.MaxOf("nodes-in-one-program", len(prog.Nodes))
 	c.MaxOf("readers-of-one-program", len(scripts))
 	if len(prog.Nodes) >= 20 {
